@@ -8,6 +8,7 @@
 #define SPECTRA_SEARCH_SPACE_H
 
 #include <Eigen/Core>
+#include <limits>
 
 #include "RitzPairs.h"
 #include "Orthogonalization.h"
@@ -45,6 +46,9 @@ public:
     void initialize_search_space(const Eigen::Ref<const Matrix>& initial_vectors)
     {
         m_basis_vectors = initial_vectors;
+        // The Ritz pairs are computed from V'AV, which requires an orthonormal basis V,
+        // but the caller may supply any set of linearly independent vectors
+        twice_is_enough_orthogonalisation(m_basis_vectors);
         m_op_basis_product = Matrix(initial_vectors.rows(), 0);
     }
 
@@ -79,9 +83,26 @@ public:
     /// \param new_vect Matrix of new correction vectors
     void extend_basis(const Matrix& new_vect)
     {
-        Index left_cols_to_skip = size();
-        append_new_vectors_to_basis(new_vect);
-        twice_is_enough_orthogonalisation(m_basis_vectors, left_cols_to_skip);
+        // Orthonormalize the new vectors against the current basis (two passes) and against
+        // each other, one at a time. A vector that is numerically contained in the span of
+        // the basis - e.g. the zero correction vector of a Ritz pair that is already exact -
+        // is dropped; a blind QR step would turn it into a copy of an existing basis vector
+        const Scalar eps = Eigen::NumTraits<Scalar>::epsilon();
+        for (Index j = 0; j < new_vect.cols(); j++)
+        {
+            Matrix v = new_vect.col(j);
+            const Scalar norm0 = v.norm();
+            if (!(norm0 > Scalar(0)) || !(norm0 < (std::numeric_limits<Scalar>::max)()))
+                continue;
+            v /= norm0;
+            for (int pass = 0; pass < 2; pass++)
+                v -= m_basis_vectors * (m_basis_vectors.transpose() * v);
+            const Scalar norm1 = v.norm();
+            if (!(norm1 > Scalar(100) * eps))
+                continue;
+            v /= norm1;
+            append_new_vectors_to_basis(v);
+        }
     }
 
     /// Returns the basis vectors
